@@ -18,7 +18,10 @@ Inductive case :=
 | Strip (s : list Z)                                   (* CHText.strip_colors(s) on an arbitrary string *)
 | SeqOps (fmts : list fmtargs)                         (* a pool of ColorFmt / ColorBytes objects, created once, *)
          (pcs : list (option nat * list Z))            (* pieces fmt_k(text) / plain str, created once, *)
-         (n : nat) (ops : list op).                    (* n texts, and the operations on them (Seq.v) *)
+         (n : nat) (ops : list op)                     (* n texts, and the operations on them (Seq.v) *)
+| Pad (a : fmtargs) (text l r : list Z).               (* round 5: format(ColorFmt(args)(text), spec) and the same on
+                                                          CHText(chunk): the padding l / r that str.__format__ puts
+                                                          around the plain text stands OUTSIDE prefix .. suffix *)
 
 Definition sx_colour (c : colour) : sx :=
   match c with Default => SL [SZ 0] | Named n => SL [SZ 1; SZ n] | Idx n => SL [SZ 2; SZ n] end.
@@ -86,6 +89,11 @@ Definition run_model (c : case) : sx :=
       | None => sx_res (fun pieces => SL (exec fmts pieces ops (repeat [] n)))
                        (build (map (resolve fmts) pcs))
       end
+  | Pad a text l r =>
+      (* _CHTextChunk.__format__ = CHText(chunk).__format__: fill characters, the rendered chunk, fill characters *)
+      sx_res (fun ps => let s := l ++ chunk_str (fmt_call ps text) ++ r in
+                        SL [sx_str s; sx_str (strip s); sx_term (term s)])
+             (make a false)
   end.
 
 (* ---- the translated make next to the hand model's ---- *)
@@ -112,6 +120,7 @@ Definition fmts_of (c : case) : list fmtargs :=
   | Text items => flat_map (fun it => match fst it with Some a => [a] | None => [] end) items
   | Strip _ => []
   | SeqOps fmts _ _ _ => fmts
+  | Pad a _ _ _ => [a]
   end.
 
 Definition sx_make (r : res (list Z * list Z)) : sx :=
